@@ -10,6 +10,20 @@ ids = [json.loads(l)["id"] for l in open(os.path.join(ROOT, "properties.jsonl"))
 # properties still being built are ignored until their id is added here
 CLAIMED = set(l.strip() for l in open(os.path.join(ROOT, "tools", "claimed.txt")) if l.strip())
 PROPS = {k: v for k, v in PROPS.items() if k in CLAIMED}
+def translated(pid):
+    """names of the Go functions that are translated from the current source on every run (tools/gen/<pid>.spec)"""
+    sp = os.path.join(ROOT, "tools", "gen", pid + ".spec")
+    if not os.path.exists(sp):
+        return ""
+    fs = []
+    for l in open(sp):
+        l = l.split("#")[0].split()
+        if len(l) >= 2:
+            fs += [os.path.basename(os.path.dirname(l[0])) + "." + f for f in l[1:]]
+    return ("; translation: the scalar functions %s are translated from /repo's current source to Gallina on every run (harness/cmd/go2coq) and "
+            "proved equal to the model for all inputs (coq/GenEquiv/%s.v, re-checked by tools/genequiv.sh)" % (", ".join(fs), pid))
+
+
 checks = []
 for pid in ids:
     if pid not in PROPS:
@@ -24,7 +38,7 @@ for pid in ids:
         engine="coq-model+correspondence",
         level_claimed=dict(category="proof", text=c["level_text"], design_ref=c.get("design_ref", "DESIGN.md section 6, " + pid)),
         level_note=c["level_note"],
-        technique=c["technique"],
+        technique=c["technique"] + translated(pid),
     ))
 man = dict(
     version=1,
